@@ -4,7 +4,7 @@ length of the converted path (contig length for a bare contig) and that the CIGA
 import os
 
 from rtc import convlib
-from rtc.gen import make_rgfa, gaf_record, write_lines, all_ranges, colon_contigs
+from rtc.gen import make_rgfa, gaf_record, write_lines, all_ranges, colon_contigs, rename_ids
 
 
 def cases(ctx, n_graphs, max_steps):
@@ -14,6 +14,8 @@ def cases(ctx, n_graphs, max_steps):
                       self_link=ctx.rng.random() < 0.2, n_chrom=ctx.rng.choice([1, 1, 2]))
         if gi % 5 == 3:
             g = colon_contigs(g)  # contig names containing ':' (F18)
+        if gi % 4 == 2:
+            g = rename_ids(g, ("dash", "dot", "hash")[gi % 3])  # segment names with punctuation: utig4-12, ptg012l.2, n#12 (after seeded change C01-5)
         walks = g.walks(max_steps)
         if len(walks) > 60:
             walks = ctx.rng.sample(walks, 60)
